@@ -21,7 +21,8 @@ with z3's RegLan theory on the real pattern's own parse tree:
    (3) the split is unique: with c the first character of the literal that
        follows g_i, c does not occur in L(f_i), and c occurs either nowhere in
        L(g_i) or nowhere in the rest of the form after that literal.
-  SPLIT LEMMA (argued here, used for (3)): let w = l0 f1 l1 f2 ... = l0 x1 l1 x2 ...
+  SPLIT LEMMA (argued here and machine-checked in lean/Split.lean: split_unique_first,
+  split_unique_last, split_fixed, split_step; used for (3)): let w = l0 f1 l1 f2 ... = l0 x1 l1 x2 ...
   with x_i in L(g_i).  By induction on i, x_i = f_i: both start at the same
   offset; if x_i were shorter, l_i would begin inside f_i, so its first
   character c occurs in f_i; if longer, x_i contains the c that ends f_i (so c
